@@ -389,8 +389,10 @@ Definition enc_ret (cfg : config) (r : ret) : list Z :=
 Definition b2z (b : bool) : Z := if b then 1 else 0.
 
 (* one observation per step: return value, verifier-call delta, whole state, bucket_stats *)
+(* framed as [len ret; ret..; len rest; rest..] so that the runner can attribute a disagreement to one op *)
+Definition framed (l : list Z) : list Z := zlen l :: l.
 Definition enc_step (cfg : config) (st' : state) (o : out) : list Z :=
-  enc_ret cfg (o_ret o) ++ [b2z (o_verified o)] ++ enc_state st' ++ enc_stats (stats cfg st').
+  framed (enc_ret cfg (o_ret o)) ++ framed ([b2z (o_verified o)] ++ enc_state st' ++ enc_stats (stats cfg st')).
 
 Fixpoint run_obs (cfg : config) (st : state) (ops : list op) : list Z :=
   match ops with
